@@ -12,8 +12,8 @@ import Hv.Storage.Fault
                   model reader (`L:`), recovered as `Load` does (`C:`), then a probe record is
                   appended through the model writer and everything is loaded again (`A:`)
     A reply carries `#F:<id>` when the model state violates the Spec there. -/
-namespace Driver.Stor
-open Hv.Storage
+namespace Driver.BStor
+open Hv.BlockStore
 
 def hexVal (c : Char) : Nat :=
   if '0' ≤ c ∧ c ≤ '9' then c.toNat - '0'.toNat
@@ -318,4 +318,4 @@ def step (h : Hooks) (s0 : DS) (line : String) : DS × String :=
 
 def boolArg (kv : List (String × String)) (k : String) : Bool := arg kv k == "yes"
 
-end Driver.Stor
+end Driver.BStor
